@@ -4,7 +4,9 @@ import (
 	"context"
 	"fmt"
 	"strings"
+	"sync"
 	"sync/atomic"
+	"time"
 
 	"github.com/orda-io/orda/client/pkg/errors"
 	"github.com/orda-io/orda/client/pkg/model"
@@ -13,6 +15,7 @@ import (
 	"vh/bed"
 	"vh/core"
 	"vh/crdt"
+	"vh/fakemongo"
 )
 
 func init() {
@@ -20,7 +23,7 @@ func init() {
 		ID:      "C16",
 		Level:   "exploration",
 		Workers: 16,
-		Rule: "request mutation over the real service: valid requests captured from correct clients in all states (due-to-create, due-to-subscribe, subscribed with and without pending operations) are mutated in one to three fields - unknown / foreign / empty / swapped DUID, unknown or empty key, wrong type, every combination of the seven option bits (read-only with and without operations, snapshot, delete, unsubscribe, error), checkpoints stale / future / huge / zero, operation lists with gaps, repeats, reordering, foreign client id, other era, emptied, 500 operations; unregistered / foreign-collection / administrative / empty client id, unknown / other / empty collection, no packs, duplicated packs - plus correct requests with a panic injected inside their handler's goroutine between lock acquisition and commit (hook pp.before-commit: the recovery path must answer, keep the process alive and release the key), plus ClientMessage, PatchMessage (invalid JSON, non-object JSON, key of another type, unknown collection) and CollectionMessage variants. Monitors: every call is answered (watchdog classification: a handler that ended without replying is a hang), a server panic is a violation, refused (RPC error or error-bit pack) => store diff empty (volatile timestamps ignored); after every hostile request a canary client syncs the same key and another key and must be answered. Client half: every error pack the server produced in the run and the five defined push-pull error codes are applied to a subscribed client: its error handler must be called, nothing may panic, and it must complete a normal sync of another datatype afterwards; " +
+		Rule: "request mutation over the real service: valid requests captured from correct clients in all states (due-to-create, due-to-subscribe, subscribed with and without pending operations) are mutated in one to three fields - unknown / foreign / empty / swapped DUID, unknown or empty key, wrong type, every combination of the seven option bits (read-only with and without operations, snapshot, delete, unsubscribe, error), checkpoints stale / future / huge / zero, operation lists with gaps, repeats, reordering, foreign client id, other era, emptied, 500 operations; unregistered / foreign-collection / administrative / empty client id, unknown / other / empty collection, no packs, duplicated packs - plus correct requests with a panic injected inside their handler's goroutine between lock acquisition and commit (hook pp.before-commit: the recovery path must answer, keep the process alive and release the key), plus ClientMessage, PatchMessage (invalid JSON, non-object JSON, key of another type, unknown collection) and CollectionMessage variants. Monitors: every call is answered (watchdog classification: a handler that ended without replying is a hang), a server panic is a violation, refused (RPC error or error-bit pack) => store diff empty (volatile timestamps ignored); after every hostile request a canary client syncs the same key and another key and must be answered. Client half: every error pack the server produced in the run and the five defined push-pull error codes are applied to a subscribed client: its error handler must be called, nothing may panic, and it must complete a normal sync of another datatype afterwards; every third case also runs the client half through the SDK's own sync path (Client.Sync() over real grpc): a lost response, a request refused at the RPC level and an error pack for one of two datatypes, in random order - after each the next Sync() must return (watchdog classification: waiting for the client's sync semaphore while no sync is under way is a hang) and succeed, the error pack must reach an error handler, and every issued operation ends up stored exactly once; " +
 			"non-trivial = the request differs from any request a correct client could send (every mutated request); distinct = hash of the mutation script",
 		Assumptions: []string{
 			"only 'answered / not answered / crashed' and 'refused => unchanged' are verdicts; whatever a canary notices after an ACCEPTED hostile request (error pack, client-side panic) is recorded as a diagnostic",
@@ -560,6 +563,157 @@ func runC16(c *core.Case) *core.Result {
 	if pm != "" || ex.Out.Err != nil || ex.Out.Panic != "" || ex.Out.TimedOut || ex.Refused() {
 		return c.Violation("client-unusable-after-errors", "after receiving error packs the client cannot complete a normal sync of another datatype (rpc err %v, client panic %q)", ex.Out.Err, pm)
 	}
+	if c.Index%3 == 0 {
+		if res := c16SDKHalf(c, w); res != nil {
+			return res
+		}
+	}
 	c.NonTrivial()
 	return c.Held()
+}
+
+// c16SDKHalf: the client half through the SDK's own sync path (Client.Sync() over real grpc
+// to the front of the bed). The client meets, one after the other, a lost response, a
+// request refused at the RPC level (a database read of the service fails before any handler
+// runs) and an error pack for one of its two datatypes (a read inside that handler fails);
+// after each of them the next Sync() must return (not wait forever for something the failed
+// sync still holds) and succeed, the error pack must reach the error handler of the datatype
+// it belongs to, and in the end every issued operation is stored exactly once.
+func c16SDKHalf(c *core.Case, w *svcWorld) *core.Result {
+	front, err := w.b.Front()
+	if err != nil {
+		return c.Inconclusive("grpc front: %v", err)
+	}
+	defer front.SetFaults(nil, nil)
+	defer w.b.DB.SetPlan(nil)
+	cl, err := w.b.NewSDKBedClient("colA", "sdkvictim")
+	if err != nil {
+		return c.Inconclusive("SDK client Connect: %v", err)
+	}
+	w.cls = append(w.cls, cl) // closed with the world
+	key1, key2 := fmt.Sprintf("s1-%d", c.Index), fmt.Sprintf("s2-%d", c.Index)
+	d1 := cl.Open(key1, "counter", bed.Create)
+	d2 := cl.Open(key2, "counter", bed.Create)
+	if d1 == nil || d2 == nil {
+		return c.Inconclusive("SDK client cannot open datatypes")
+	}
+	syncOnce := func(what string, wantErr bool) (*core.Result, bool) {
+		c.Step("sdkvictim Sync() %s", what)
+		out := cl.SyncSDKWithin(10 * time.Second)
+		if out.Panic != "" {
+			return c.Violation("client-panic", "Client.Sync() panicked %s: %s", what, out.Panic), false
+		}
+		if out.TimedOut {
+			if out.Hang && bed.ClientSyncStuck(out.Dump) {
+				return c.Violation("client-sync-hang", "Client.Sync() %s never returned: it waits for the client's sync semaphore while no sync of this process is under way that could release it\n%s", what, clipDump(out.Dump)), false
+			}
+			if out.Hang {
+				return c.Violation("request-hang", "Client.Sync() %s never returned\n%s", what, clipDump(out.Dump)), false
+			}
+			return c.Inconclusive("Client.Sync() %s did not return within the watchdog", what), false
+		}
+		if !w.idle() {
+			return c.Inconclusive("idle"), false
+		}
+		if wantErr && out.Err == nil {
+			c.Count("sdk_fault_without_error_return", 1)
+		}
+		return nil, out.Err == nil
+	}
+	if res, ok := syncOnce("(first, fault-free)", false); res != nil {
+		return res
+	} else if !ok {
+		return c.Inconclusive("the fault-free first sync of the SDK client failed")
+	}
+	r := c.Rng
+	faults := []string{"response-lost", "rpc-refused", "error-pack"}
+	r.Shuffle(len(faults), func(i, j int) { faults[i], faults[j] = faults[j], faults[i] })
+	for _, f := range faults {
+		crdt.Apply(d1.DT, crdt.Op{Kind: "inc", N: 1})
+		crdt.Apply(d2.DT, crdt.Op{Kind: "inc", N: 2})
+		errs1, _, _ := d1.Handler()
+		errs2, _, _ := d2.Handler()
+		var mu sync.Mutex
+		hit := false
+		once := func() bool {
+			mu.Lock()
+			defer mu.Unlock()
+			if hit {
+				return false
+			}
+			hit = true
+			return true
+		}
+		switch f {
+		case "response-lost":
+			front.SetFaults(func(req *model.PushPullMessage) bool { return req.Cuid == d1.W.GetCUID() && once() }, nil)
+		case "rpc-refused":
+			w.b.DB.SetPlan(func(cmd *fakemongo.Cmd) fakemongo.Action {
+				if cmd.Name == "find" && cmd.Coll == "-_-Clients" && once() {
+					return fakemongo.Action{Fail: true}
+				}
+				return fakemongo.Action{}
+			})
+		case "error-pack":
+			w.b.DB.SetPlan(func(cmd *fakemongo.Cmd) fakemongo.Action {
+				if cmd.Name == "find" && cmd.Coll == "-_-Datatypes" && once() {
+					return fakemongo.Action{Fail: true}
+				}
+				return fakemongo.Action{}
+			})
+		}
+		res, _ := syncOnce("with fault "+f, f != "error-pack")
+		front.SetFaults(nil, nil)
+		w.b.DB.SetPlan(nil)
+		if res != nil {
+			return res
+		}
+		mu.Lock()
+		wasHit := hit
+		mu.Unlock()
+		if !wasHit {
+			c.Count("sdk_fault_not_reached_"+f, 1)
+		} else {
+			c.Count("sdk_faults_"+f, 1)
+		}
+		if f == "error-pack" && wasHit {
+			a1, _, _ := d1.Handler()
+			a2, _, _ := d2.Handler()
+			if len(a1)+len(a2) <= len(errs1)+len(errs2) {
+				return c.Violation("error-not-reported", "the server answered one of the SDK client's packs with an error pack (a database read of its handler failed) but no error handler was called")
+			}
+		}
+		// the client stays usable: the next Sync() returns and succeeds
+		if res, ok := syncOnce("after fault "+f, false); res != nil {
+			return res
+		} else if !ok {
+			return c.Violation("client-unusable-after-errors", "after %s the SDK client's next fault-free Sync() returned an error", f)
+		}
+	}
+	// everything issued is stored exactly once
+	for _, d := range []*bed.DT{d1, d2} {
+		dd := w.b.Datatype(w.colNum, d.Key)
+		if dd == nil {
+			return c.Violation("sdk-datatype-not-stored", "the SDK client's datatype %q is not stored after fault-free syncs", d.Key)
+		}
+		if sig, msg := w.b.CheckLog(nil, dd.DUID); sig != "" {
+			return c.Violation("sdk:"+sig, "%s", msg)
+		}
+		p := d.W.CreatePushPullPack()
+		issued := p.CheckPoint.Cseq
+		if len(p.Operations) > 0 {
+			return c.Violation("sdk-operations-left", "after the final fault-free Sync() the SDK client still holds %d unpushed operations of %q", len(p.Operations), d.Key)
+		}
+		stored := uint64(0)
+		for _, o := range w.b.Ops(dd.DUID) {
+			if o.OpID.CUID == d.W.GetCUID() {
+				stored++
+			}
+		}
+		if stored != issued {
+			return c.Violation("sdk-issued-vs-stored", "the SDK client issued operations of %q up to seq %d, %d are stored", d.Key, issued, stored)
+		}
+	}
+	c.Count("sdk_client_halves", 1)
+	return nil
 }
